@@ -437,7 +437,7 @@ pub fn c15(ctx: &mut Ctx) {
         }
         return;
     }
-    let n = ctx.n(24_000, 600_000, 2);
+    let n = ctx.n(24_000, 3_000_000, 2);
     for k in 0..n {
         let i = ctx.shard + k * ctx.nshards;
         ctx.rep.cur_case = format!("c15 {} seed {}", i, seed);
